@@ -422,6 +422,15 @@ main(int argc, char** argv)
       char* w = realpath(path, want);
       if ((mine == NULL) != (w == NULL) || (mine && strcmp(mine, w))) printf("canon=DIFFERS SPEC-FAIL:canonical-path-differs-from-realpath");
       else printf("canon=ok");
+      // the result with the scratch directory written as /S (the model's name for it)
+      {
+        char sreal[PATH_MAX];
+        const char* sr = realpath(scratch, sreal) ? sreal : scratch;
+        const size_t sl = strlen(sr);
+        if (!mine) printf(" path=NULL");
+        else if (!strncmp(mine, sr, sl) && (mine[sl] == '/' || !mine[sl])) printf(" path=/S%s", mine + sl);
+        else printf(" path=%s", mine);
+      }
       printf(" fds=%d\n", count_fds() == fds0);
       zix_free(&va.base, mine);
       free(path);
